@@ -61,6 +61,63 @@ class Arr:
     def astype(self, *_a, **_k):
         return self
 
+    # -- elementwise comparisons / logic (scalar or last-axis vector broadcast), enough for bounds masks
+    def _zip(self, other, f):
+        o = other.data if isinstance(other, Arr) else (list(other) if isinstance(other, (tuple, list)) else other)
+
+        def rec(d, o_):
+            if isinstance(d, list):
+                if isinstance(o_, list):
+                    if _shape(o_) == _shape(d):
+                        return [rec(x, y) for x, y in zip(d, o_)]
+                    if len(_shape(o_)) < len(_shape(d)):
+                        return [rec(x, o_) for x in d]  # broadcast over the leading axis
+                    raise ValueError(f"operands could not be broadcast together with shapes {_shape(d)} {_shape(o_)}")
+                return [rec(x, o_) for x in d]
+            if isinstance(o_, list):
+                raise ValueError("operands could not be broadcast together")
+            return f(d, o_)
+        return Arr(rec(self.data, o))
+
+    def __lt__(self, o):
+        return self._zip(o, lambda a, b: a < b)
+
+    def __le__(self, o):
+        return self._zip(o, lambda a, b: a <= b)
+
+    def __gt__(self, o):
+        return self._zip(o, lambda a, b: a > b)
+
+    def __ge__(self, o):
+        return self._zip(o, lambda a, b: a >= b)
+
+    def __and__(self, o):
+        return self._zip(o, lambda a, b: bool(a) and bool(b))
+
+    def __or__(self, o):
+        return self._zip(o, lambda a, b: bool(a) or bool(b))
+
+    def __invert__(self):
+        def rec(d):
+            return [rec(x) for x in d] if isinstance(d, list) else (not d)
+        return Arr(rec(self.data))
+
+    def all(self, *_a, **k):
+        if k.get("axis") is not None or _a:
+            raise TypeError("axis reductions are not modelled")
+
+        def rec(d):
+            return all(rec(x) for x in d) if isinstance(d, list) else bool(d)
+        return rec(self.data)
+
+    def any(self, *_a, **k):
+        if k.get("axis") is not None or _a:
+            raise TypeError("axis reductions are not modelled")
+
+        def rec(d):
+            return any(rec(x) for x in d) if isinstance(d, list) else bool(d)
+        return rec(self.data)
+
     def sum(self, *_a, **_k):
         return sum(self.data)
 
@@ -179,5 +236,9 @@ MODELS = {
     "np.concatenate": lambda xs, *a, **k: Arr([row for x in xs for row in _to_data(x)]),
     "np.stack": lambda xs, *a, **k: Arr([_to_data(x) for x in xs]),
     "np.max": lambda x, *a, **k: max(_to_data(x)),
+    "np.all": lambda x, *a, **k: x.all(*a, **k) if isinstance(x, Arr) else all(x),
+    "np.any": lambda x, *a, **k: x.any(*a, **k) if isinstance(x, Arr) else any(x),
+    "np.logical_and": lambda a, b: a & b,
+    "np.logical_not": lambda a: ~a,
     "len": lambda x: len(x),
 }
